@@ -90,6 +90,356 @@ def ASet.opRun (key : α → κ) (P : Nat) (s : ASet α) : List (ASOp α κ) →
 
 section Lemmas
 
+/-! ### Helper lemmas -/
+
+theorem ascK_iff_pairwise : ∀ l : List κ, AscK l ↔ l.Pairwise (· < ·)
+  | [] => by simp [AscK]
+  | a :: l => by simp [AscK, ascK_iff_pairwise l]
+
+theorem sameK_iff {a b : κ} : sameK a b ↔ a = b :=
+  ⟨fun h => LinOrd.eq_of_not_lt h.1 h.2,
+   fun h => by subst h; exact ⟨LinOrd.irrefl _, LinOrd.irrefl _⟩⟩
+
+theorem not_sameK_of_lt {a b : κ} (h : a < b) : ¬ sameK a b := fun h' => h'.1 h
+theorem not_sameK_of_gt {a b : κ} (h : b < a) : ¬ sameK a b := fun h' => h'.2 h
+
+theorem findK_append_cons {key : α → κ} {k : κ} (a : List α) (y : α) (b : List α)
+    (ha : ∀ z ∈ a, key z < k) (hy : key y = k) : findK key k (a ++ y :: b) = some y := by
+  induction a with
+  | nil => simp [findK, sameK_iff, hy]
+  | cons z a ih =>
+    have hz : ¬ sameK (key z) k := not_sameK_of_lt (ha z (by simp))
+    simp only [List.cons_append, findK, hz, if_false]
+    exact ih (fun w hw => ha w (by simp [hw]))
+
+theorem findK_append_none {key : α → κ} {k : κ} (a b : List α)
+    (ha : ∀ z ∈ a, key z < k) (hb : ∀ z ∈ b, k < key z) : findK key k (a ++ b) = none := by
+  induction a with
+  | nil =>
+    simp only [List.nil_append]
+    induction b with
+    | nil => rfl
+    | cons z b ih =>
+      have hz : ¬ sameK (key z) k := not_sameK_of_gt (hb z (by simp))
+      simp only [findK, hz, if_false]
+      exact ih (fun w hw => hb w (by simp [hw]))
+  | cons z a ih =>
+    have hz : ¬ sameK (key z) k := not_sameK_of_lt (ha z (by simp))
+    simp only [List.cons_append, findK, hz, if_false]
+    exact ih (fun w hw => ha w (by simp [hw]))
+
+theorem eraseK_append_cons {key : α → κ} {k : κ} (a : List α) (y : α) (b : List α)
+    (ha : ∀ z ∈ a, key z < k) (hy : key y = k) : eraseK key k (a ++ y :: b) = a ++ b := by
+  induction a with
+  | nil => simp [eraseK, sameK_iff, hy]
+  | cons z a ih =>
+    have hz : ¬ sameK (key z) k := not_sameK_of_lt (ha z (by simp))
+    simp only [List.cons_append, eraseK, hz, if_false]
+    rw [ih (fun w hw => ha w (by simp [hw]))]
+
+theorem setK_append_cons {key : α → κ} {k : κ} (a : List α) (y y' : α) (b : List α)
+    (ha : ∀ z ∈ a, key z < k) (hy : key y = k) : setK key k y' (a ++ y :: b) = a ++ y' :: b := by
+  induction a with
+  | nil => simp [setK, sameK_iff, hy]
+  | cons z a ih =>
+    have hz : ¬ sameK (key z) k := not_sameK_of_lt (ha z (by simp))
+    simp only [List.cons_append, setK, hz, if_false]
+    rw [ih (fun w hw => ha w (by simp [hw]))]
+
+theorem insSorted_append {key : α → κ} {x : α} (a b : List α)
+    (ha : ∀ z ∈ a, key z < key x) (hb : ∀ z ∈ b, key x < key z) :
+    insSorted key x (a ++ b) = a ++ x :: b := by
+  induction a with
+  | nil =>
+    cases b with
+    | nil => rfl
+    | cons z b => simp [insSorted, hb z (by simp)]
+  | cons z a ih =>
+    have hz : ¬ key x < key z := LinOrd.asymm (ha z (by simp))
+    simp only [List.cons_append, insSorted, hz, if_false]
+    rw [ih (fun w hw => ha w (by simp [hw]))]
+
+theorem eraseK_of_findK_none {key : α → κ} {k : κ} (l : List α) (h : findK key k l = none) :
+    eraseK key k l = l := by
+  induction l with
+  | nil => rfl
+  | cons z l ih =>
+    simp only [findK] at h
+    by_cases hz : sameK (key z) k
+    · simp [hz] at h
+    · simp only [hz, if_false] at h
+      simp only [eraseK, hz, if_false, ih h]
+
+theorem mem_take_idx {l : List α} {i : Nat} {z : α} (h : z ∈ l.take i) :
+    ∃ j, j < i ∧ l[j]? = some z := by
+  obtain ⟨j, hj⟩ := List.mem_iff_getElem?.mp h
+  rw [List.getElem?_take] at hj
+  split at hj
+  · exact ⟨j, by assumption, hj⟩
+  · cases hj
+
+theorem mem_take_drop_idx {l : List α} {i n : Nat} {z : α} (h : z ∈ (l.drop i).take n) :
+    ∃ j, i ≤ j ∧ j < i + n ∧ l[j]? = some z := by
+  obtain ⟨j, hj, hz⟩ := mem_take_idx h
+  rw [List.getElem?_drop] at hz
+  exact ⟨i + j, by omega, by omega, hz⟩
+
+open ASet in
+theorem search_spec {key : α → κ} {vals : List α} {len : Nat} (x : κ)
+    (hlen : len ≤ vals.length)
+    (hs : ∀ i j a b, i < j → j < len → vals[i]? = some a → vals[j]? = some b → key a < key b) :
+    ∀ (fuel s e : Nat) (ps : List Nat), s ≤ e + 1 → e < len → e + 1 - s < fuel →
+      (∀ j y, j < s → vals[j]? = some y → key y < x) →
+      (∀ j y, e < j → j < len → vals[j]? = some y → x < key y) →
+      ∃ r ps', search key vals x fuel s e ps = .ok (r, ps') ∧
+       ((∃ i y, r = .found i ∧ i < len ∧ vals[i]? = some y ∧ sameK (key y) x) ∨
+        (∃ i, r = .absent i ∧ i ≤ len ∧ (∀ j y, j < i → vals[j]? = some y → key y < x) ∧
+           (∀ j y, i ≤ j → j < len → vals[j]? = some y → x < key y))) := by
+  intro fuel
+  induction fuel with
+  | zero => intro s e ps _ _ hf; omega
+  | succ fuel ih =>
+    intro s e ps hse hel hf hlo hhi
+    unfold search
+    by_cases hle : s ≤ e
+    · have hm : s + (e - s) / 2 < vals.length := by omega
+      have hy : vals[s + (e - s) / 2]? = some vals[s + (e - s) / 2] := List.getElem?_eq_getElem hm
+      generalize vals[s + (e - s) / 2] = y at hy
+      simp only [hle, if_true, hy]
+      by_cases h1 : x < key y
+      · simp only [h1, if_true]
+        by_cases h2 : e = s
+        · subst h2
+          simp only [if_true]
+          refine ⟨_, _, rfl, Or.inr ⟨e, rfl, by omega, hlo, ?_⟩⟩
+          intro j z hj hjl hz
+          by_cases hje : j = e
+          · subst hje
+            have : j + (j - j) / 2 = j := by simp
+            rw [this] at hy
+            rw [hy] at hz; cases hz; exact h1
+          · exact hhi j z (by omega) hjl hz
+        · simp only [h2, if_false]
+          apply ih
+          · omega
+          · omega
+          · omega
+          · exact hlo
+          · intro j z hj hjl hz
+            by_cases hjm : j = s + (e - s) / 2
+            · subst hjm; rw [hy] at hz; cases hz; exact h1
+            · exact LinOrd.trans h1 (hs _ _ _ _ (by omega) hjl hy hz)
+      · simp only [h1, if_false]
+        by_cases h3 : key y < x
+        · simp only [h3, if_true]
+          apply ih
+          · omega
+          · omega
+          · omega
+          · intro j z hj hz
+            by_cases hjm : j = s + (e - s) / 2
+            · subst hjm; rw [hy] at hz; cases hz; exact h3
+            · exact LinOrd.trans (hs _ _ _ _ (by omega) (by omega) hz hy) h3
+          · exact hhi
+        · simp only [h3, if_false]
+          exact ⟨_, _, rfl, Or.inl ⟨_, y, rfl, by omega, hy, h3, h1⟩⟩
+    · simp only [hle, if_false]
+      exact ⟨_, _, rfl, Or.inr ⟨s, rfl, by omega, hlo, fun j z hj hjl hz => hhi j z (by omega) hjl hz⟩⟩
+
+open ASet in
+theorem search_probes {key : α → κ} {vals : List α} (x : κ) :
+    ∀ (fuel s e : Nat) (ps : List Nat) (r : Idx) (ps' : List Nat),
+      search key vals x fuel s e ps = .ok (r, ps') →
+      ∃ qs, ps' = ps ++ qs ∧ (∀ p ∈ qs, p ≤ e) ∧
+        (qs.length = 0 ∨ 2 ^ (qs.length - 1) ≤ e + 1 - s) := by
+  intro fuel
+  induction fuel with
+  | zero =>
+    intro s e ps r ps' h
+    simp only [search, Except.ok.injEq, Prod.mk.injEq] at h
+    exact ⟨[], by simp [h.2], by simp, Or.inl rfl⟩
+  | succ fuel ih =>
+    intro s e ps r ps' h
+    unfold search at h
+    by_cases hle : s ≤ e
+    · simp only [hle, if_true] at h
+      split at h
+      · cases h
+      · rename_i y hy
+        have step : ∀ s' e' , e' ≤ e → (e' + 1 - s') ≤ (e + 1 - s) / 2 →
+            search key vals x fuel s' e' (ps ++ [s + (e - s) / 2]) = .ok (r, ps') →
+            ∃ qs, ps' = ps ++ qs ∧ (∀ p ∈ qs, p ≤ e) ∧
+              (qs.length = 0 ∨ 2 ^ (qs.length - 1) ≤ e + 1 - s) := by
+          intro s' e' he' hw hsr
+          obtain ⟨qs, hqs, hp, hb⟩ := ih s' e' _ r ps' hsr
+          refine ⟨(s + (e - s) / 2) :: qs, by simp [hqs], ?_, Or.inr ?_⟩
+          · intro p hp'
+            rcases List.mem_cons.mp hp' with rfl | hp'
+            · omega
+            · have := hp p hp'; omega
+          · simp only [List.length_cons, Nat.add_sub_cancel]
+            cases qs with
+            | nil => simp; omega
+            | cons q qs =>
+              simp only [List.length_cons, Nat.add_sub_cancel] at hb ⊢
+              rcases hb with hb | hb
+              · omega
+              · rw [Nat.pow_succ]
+                generalize 2 ^ qs.length = t at hb ⊢
+                omega
+        have single : ps' = ps ++ [s + (e - s) / 2] →
+            ∃ qs, ps' = ps ++ qs ∧ (∀ p ∈ qs, p ≤ e) ∧
+              (qs.length = 0 ∨ 2 ^ (qs.length - 1) ≤ e + 1 - s) := by
+          intro hps
+          refine ⟨[s + (e - s) / 2], hps, ?_, Or.inr ?_⟩
+          · intro p hp; simp at hp; omega
+          · simp; omega
+        by_cases h1 : x < key y
+        · simp only [h1, if_true] at h
+          by_cases h2 : e = s
+          · simp only [h2, if_true, Except.ok.injEq, Prod.mk.injEq] at h
+            apply single; rw [← h.2, h2]
+          · simp only [h2, if_false] at h
+            exact step _ _ (by omega) (by omega) h
+        · simp only [h1, if_false] at h
+          by_cases h3 : key y < x
+          · simp only [h3, if_true] at h
+            exact step _ _ (by omega) (by omega) h
+          · simp only [h3, if_false, Except.ok.injEq, Prod.mk.injEq] at h
+            exact single h.2.symm
+    · simp only [hle, if_false, Except.ok.injEq, Prod.mk.injEq] at h
+      exact ⟨[], by simp [h.2], by simp, Or.inl rfl⟩
+
+theorem ASet.Inv.sortedIdx {key : α → κ} {P : Nat} {s : ASet α} (h : s.Inv key P) :
+    ∀ i j a b, i < j → j < s.len → s.vals[i]? = some a → s.vals[j]? = some b → key a < key b := by
+  have hp := (ascK_iff_pairwise _).mp h.sorted
+  rw [List.pairwise_map, List.pairwise_iff_getElem] at hp
+  intro i j a b hij hj ha hb
+  have hle := h.len_le
+  simp only [ASet.slots] at hle
+  have hl : s.view.length = s.len := by simp only [ASet.view, List.length_take]; omega
+  have := hp i j (by omega) (by omega) hij
+  simp only [ASet.view, List.getElem_take] at this
+  obtain ⟨_, rfl⟩ := List.getElem?_eq_some_iff.mp ha
+  obtain ⟨_, rfl⟩ := List.getElem?_eq_some_iff.mp hb
+  exact this
+
+theorem ASet.indexP_spec {key : α → κ} {P : Nat} {s : ASet α} (h : s.Inv key P) (x : κ) :
+    ∃ r ps, s.indexP key x = .ok (r, ps) ∧
+       ((∃ i y, r = .found i ∧ i < s.len ∧ s.vals[i]? = some y ∧ sameK (key y) x) ∨
+        (∃ i, r = .absent i ∧ i ≤ s.len ∧ (∀ j y, j < i → s.vals[j]? = some y → key y < x) ∧
+           (∀ j y, i ≤ j → j < s.len → s.vals[j]? = some y → x < key y))) := by
+  unfold ASet.indexP
+  by_cases h0 : s.len = 0
+  · simp only [h0, if_true]
+    exact ⟨_, _, rfl, Or.inr ⟨0, rfl, by omega, fun j y hj => by omega, fun j y _ hj => by omega⟩⟩
+  · simp only [h0, if_false]
+    exact search_spec x h.len_le h.sortedIdx _ _ _ _ (by omega) (by omega) (by omega)
+      (fun j y hj => by omega) (fun j y hj hj' => by omega)
+
+theorem take_split {l : List α} {i n : Nat} (h : i ≤ n) :
+    l.take n = l.take i ++ (l.drop i).take (n - i) := by
+  have : n = i + (n - i) := by omega
+  rw [this, List.take_add]
+  congr 2
+  omega
+
+theorem take_split_cons {l : List α} {i n : Nat} {y : α} (h : i < n) (hy : l[i]? = some y) :
+    l.take n = l.take i ++ y :: (l.drop (i + 1)).take (n - i - 1) := by
+  obtain ⟨hl, rfl⟩ := List.getElem?_eq_some_iff.mp hy
+  rw [take_split (Nat.le_of_lt h), List.drop_eq_getElem_cons hl]
+  have : n - i = (n - i - 1) + 1 := by omega
+  rw [this, List.take_succ_cons]
+  simp
+
+theorem insert_shape {l : List α} {i len : Nat} (x : α) (hi : i ≤ len) (hl : len < l.length) :
+    ((l.take (i + 1) ++ (l.drop i).take (len - i) ++ l.drop (i + 1 + (len - i))).set i x).take (len + 1)
+      = l.take i ++ x :: (l.drop i).take (len - i) := by
+  have hil : i < l.length := by omega
+  have hA : (l.take i).length = i := by rw [List.length_take]; omega
+  have hB : ((l.drop i).take (len - i)).length = len - i := by
+    rw [List.length_take, List.length_drop]; omega
+  rw [List.take_succ_eq_append_getElem hil, List.append_assoc, List.append_assoc,
+    List.set_append_right _ _ (by omega), hA, Nat.sub_self]
+  simp only [List.cons_append, List.nil_append, List.set_cons_zero]
+  have : len + 1 = (l.take i).length + (len - i + 1) := by omega
+  rw [this, List.take_length_add_append, List.take_succ_cons, List.take_left' hB]
+
+theorem take_shape {l : List α} {i len : Nat} (hi : i < len) (hl : len ≤ l.length) :
+    (l.take i ++ (l.drop (i + 1)).take (len - i - 1) ++ l.drop (i + (len - i - 1))).take (len - 1)
+      = l.take i ++ (l.drop (i + 1)).take (len - i - 1) := by
+  apply List.take_left'
+  rw [List.length_append, List.length_take, List.length_take, List.length_drop]; omega
+
+theorem update_shape {l : List α} {i len : Nat} {y : α} (y' : α) (hi : i < len) (hy : l[i]? = some y) :
+    (l.set i y').take len = l.take i ++ y' :: (l.drop (i + 1)).take (len - i - 1) := by
+  obtain ⟨hl, _⟩ := List.getElem?_eq_some_iff.mp hy
+  have hA : (l.take i).length = i := by rw [List.length_take]; omega
+  rw [List.take_set, take_split_cons hi hy, List.set_append_right _ _ (by omega), hA, Nat.sub_self]
+  simp
+
+theorem ascK_insert {key : α → κ} {x : α} (a b : List α)
+    (ha : ∀ z ∈ a, key z < key x) (hb : ∀ z ∈ b, key x < key z)
+    (h : AscK ((a ++ b).map key)) : AscK ((a ++ x :: b).map key) := by
+  rw [ascK_iff_pairwise, List.pairwise_map, List.pairwise_append] at h ⊢
+  obtain ⟨h1, h2, h3⟩ := h
+  refine ⟨h1, List.pairwise_cons.mpr ⟨hb, h2⟩, ?_⟩
+  intro z hz w hw
+  rcases List.mem_cons.mp hw with rfl | hw
+  · exact ha z hz
+  · exact h3 z hz w hw
+
+theorem ascK_erase {key : α → κ} {y : α} (a b : List α)
+    (h : AscK ((a ++ y :: b).map key)) : AscK ((a ++ b).map key) := by
+  rw [ascK_iff_pairwise, List.pairwise_map, List.pairwise_append] at h ⊢
+  obtain ⟨h1, h2, h3⟩ := h
+  exact ⟨h1, (List.pairwise_cons.mp h2).2, fun z hz w hw => h3 z hz w (List.mem_cons_of_mem _ hw)⟩
+
+theorem ASet.Inv.found_split {key : α → κ} {P : Nat} {s : ASet α} (h : s.Inv key P) {i : Nat} {y : α}
+    (hi : i < s.len) (hy : s.vals[i]? = some y) :
+    s.view = s.vals.take i ++ y :: (s.vals.drop (i + 1)).take (s.len - i - 1) ∧
+    (∀ z ∈ s.vals.take i, key z < key y) ∧
+    (∀ z ∈ (s.vals.drop (i + 1)).take (s.len - i - 1), key y < key z) := by
+  refine ⟨take_split_cons hi hy, ?_, ?_⟩
+  · intro z hz
+    obtain ⟨j, hj, hjz⟩ := mem_take_idx hz
+    exact h.sortedIdx j i z y hj hi hjz hy
+  · intro z hz
+    obtain ⟨j, hj1, hj2, hjz⟩ := mem_take_drop_idx hz
+    exact h.sortedIdx i j y z (by omega) (by omega) hy hjz
+
+theorem ASet.absent_split {key : α → κ} {s : ASet α} {x : κ} {i : Nat} (hi : i ≤ s.len)
+    (hlo : ∀ j y, j < i → s.vals[j]? = some y → key y < x)
+    (hhi : ∀ j y, i ≤ j → j < s.len → s.vals[j]? = some y → x < key y) :
+    s.view = s.vals.take i ++ (s.vals.drop i).take (s.len - i) ∧
+    (∀ z ∈ s.vals.take i, key z < x) ∧
+    (∀ z ∈ (s.vals.drop i).take (s.len - i), x < key z) := by
+  refine ⟨take_split hi, ?_, ?_⟩
+  · intro z hz
+    obtain ⟨j, hj, hjz⟩ := mem_take_idx hz
+    exact hlo j z hj hjz
+  · intro z hz
+    obtain ⟨j, hj1, hj2, hjz⟩ := mem_take_drop_idx hz
+    exact hhi j z hj1 (by omega) hjz
+
+theorem ASet.Inv.findK_found {key : α → κ} {P : Nat} {s : ASet α} (h : s.Inv key P) {i : Nat} {y : α}
+    {k : κ} (hi : i < s.len) (hy : s.vals[i]? = some y) (hk : sameK (key y) k) :
+    findK key k s.view = some y := by
+  obtain ⟨hv, ha, _⟩ := h.found_split hi hy
+  have hk' := sameK_iff.mp hk
+  rw [hv]
+  exact findK_append_cons _ _ _ (fun z hz => hk' ▸ ha z hz) hk'
+
+theorem ASet.findK_absent {key : α → κ} {s : ASet α} {x : κ} {i : Nat} (hi : i ≤ s.len)
+    (hlo : ∀ j y, j < i → s.vals[j]? = some y → key y < x)
+    (hhi : ∀ j y, i ≤ j → j < s.len → s.vals[j]? = some y → x < key y) :
+    findK key x s.view = none := by
+  obtain ⟨hv, ha, hb⟩ := ASet.absent_split hi hlo hhi
+  rw [hv]
+  exact findK_append_none _ _ ha hb
+
+/-! ### Main statements -/
+
 /-- Binary search never faults on a well-formed set and returns the position of
     the element with that key, or the insertion point that keeps the order. -/
 theorem ASet.index_spec {key : α → κ} {P : Nat} {s : ASet α} (h : s.Inv key P) (x : κ) :
@@ -97,23 +447,58 @@ theorem ASet.index_spec {key : α → κ} {P : Nat} {s : ASet α} (h : s.Inv key
     (∃ i, s.index key x = .ok (.absent i) ∧ i ≤ s.len ∧
         (∀ j y, j < i → s.vals[j]? = some y → key y < x) ∧
         (∀ j y, i ≤ j → j < s.len → s.vals[j]? = some y → x < key y)) := by
-  sorry
+  obtain ⟨r, ps, hr, hsp⟩ := ASet.indexP_spec h x
+  have hi : s.index key x = .ok r := by simp [ASet.index, hr, Except.map]
+  rcases hsp with ⟨i, y, rfl, h1⟩ | ⟨i, rfl, h1⟩
+  · exact Or.inl ⟨i, y, hi, h1⟩
+  · exact Or.inr ⟨i, hi, h1⟩
+
 
 /-- Probe bound: a lookup in `n ≥ 1` elements compares with at most `⌊log2 n⌋ + 1`
     elements (`2^(probes-1) ≤ n`), none for the empty set. -/
 theorem ASet.probe_bound {key : α → κ} {P : Nat} {s : ASet α} (h : s.Inv key P) (x : κ)
     {r : Idx} {ps : List Nat} (hi : s.indexP key x = .ok (r, ps)) :
     ps.length = 0 ∨ 2 ^ (ps.length - 1) ≤ s.len := by
-  sorry
+  have _ := h
+  unfold ASet.indexP at hi
+  by_cases h0 : s.len = 0
+  · simp only [h0, if_true, Except.ok.injEq, Prod.mk.injEq] at hi
+    left; rw [← hi.2]; rfl
+  · simp only [h0, if_false] at hi
+    obtain ⟨qs, hqs, _, hb⟩ := search_probes x _ _ _ _ _ _ hi
+    simp only [List.nil_append] at hqs
+    subst hqs
+    rcases hb with hb | hb
+    · exact Or.inl hb
+    · right
+      have : s.len - 1 + 1 - 0 = s.len := by omega
+      rwa [this] at hb
+
 
 /-- Every probed position is inside the view. -/
 theorem ASet.probes_in_view {key : α → κ} {P : Nat} {s : ASet α} (h : s.Inv key P) (x : κ)
     {r : Idx} {ps : List Nat} (hi : s.indexP key x = .ok (r, ps)) : ∀ p ∈ ps, p < s.len := by
-  sorry
+  have _ := h
+  unfold ASet.indexP at hi
+  by_cases h0 : s.len = 0
+  · simp only [h0, if_true, Except.ok.injEq, Prod.mk.injEq] at hi
+    rw [← hi.2]; simp
+  · simp only [h0, if_false] at hi
+    obtain ⟨qs, hqs, hp, _⟩ := search_probes x _ _ _ _ _ _ hi
+    simp only [List.nil_append] at hqs
+    subst hqs
+    intro p hp'
+    have := hp p hp'
+    omega
 
 theorem ASet.get_spec {key : α → κ} {P : Nat} {s : ASet α} (h : s.Inv key P) (k : κ) :
     s.get key k = .ok (findK key k s.view) := by
-  sorry
+  rcases ASet.index_spec h k with ⟨i, y, hidx, hi, hy, hsame⟩ | ⟨i, hidx, hi, hlo, hhi⟩
+  · rw [h.findK_found hi hy hsame]
+    simp only [ASet.get, hidx, hy]
+  · rw [ASet.findK_absent hi hlo hhi]
+    simp only [ASet.get, hidx]
+
 
 /-- `insert`: never faults (in particular the raw copy stays inside the slice);
     refused (state unchanged) exactly for a present key or a full set; otherwise the view gains `x` at
@@ -123,14 +508,97 @@ theorem ASet.insert_spec {key : α → κ} {P : Nat} {s : ASet α} (h : s.Inv ke
     ((findK key (key x) s.view) = none ∧ s.len < min s.slots P ∧
       ∃ s', s.insert key P x = .ok (s', true) ∧ s'.Inv key P ∧ s'.view = insSorted key x s.view ∧
         s'.slots = s.slots ∧ s'.len = s.len + 1) := by
-  sorry
+  have hle := h.len_le
+  have hleP := h.len_leP
+  by_cases hf : s.len ≥ min s.slots P
+  · left
+    refine ⟨Or.inr hf, ?_⟩
+    have : s.isFull P = true := by
+      simp only [ASet.isFull, Bool.or_eq_true, beq_iff_eq, decide_eq_true_eq]; omega
+    simp only [ASet.insert, this, if_true]
+  · have hnf : s.isFull P = false := by
+      cases hb : s.isFull P
+      · rfl
+      · simp only [ASet.isFull, Bool.or_eq_true, beq_iff_eq, decide_eq_true_eq] at hb; omega
+    rcases ASet.index_spec h (key x) with ⟨i, y, hidx, hi, hy, hsame⟩ | ⟨i, hidx, hi, hlo, hhi⟩
+    · left
+      refine ⟨Or.inl (by rw [h.findK_found hi hy hsame]; rfl), ?_⟩
+      simp only [ASet.insert, hnf, hidx]; rfl
+    · right
+      obtain ⟨hv, ha, hb⟩ := ASet.absent_split hi hlo hhi
+      refine ⟨ASet.findK_absent hi hlo hhi, by omega, ?_⟩
+      simp only [ASet.slots] at hle hf ⊢
+      have hcw : ASet.copyWithin s.vals i (i + 1) (s.len - i) =
+          .ok (s.vals.take (i + 1) ++ (s.vals.drop i).take (s.len - i) ++ s.vals.drop (i + 1 + (s.len - i))) := by
+        unfold ASet.copyWithin
+        rw [if_neg (by omega)]
+      have hlen : (s.vals.take (i + 1) ++ (s.vals.drop i).take (s.len - i) ++
+          s.vals.drop (i + 1 + (s.len - i))).length = s.vals.length := by
+        simp only [List.length_append, List.length_take, List.length_drop]; omega
+      refine ⟨⟨s.len + 1, (s.vals.take (i + 1) ++ (s.vals.drop i).take (s.len - i) ++
+          s.vals.drop (i + 1 + (s.len - i))).set i x⟩, ?_, ?_, ?_, ?_, rfl⟩
+      · simp only [ASet.insert, hnf, hidx, hcw, Bool.false_eq_true, if_false]
+        rw [if_pos (by omega)]
+      · have hview : (⟨s.len + 1, (s.vals.take (i + 1) ++ (s.vals.drop i).take (s.len - i) ++
+          s.vals.drop (i + 1 + (s.len - i))).set i x⟩ : ASet α).view =
+            s.vals.take i ++ x :: (s.vals.drop i).take (s.len - i) :=
+          insert_shape x hi (by omega)
+        refine ⟨?_, ?_, ?_⟩
+        · simp only [ASet.slots, List.length_set, hlen]; omega
+        · show s.len + 1 ≤ P; omega
+        · rw [hview]
+          exact ascK_insert _ _ ha hb (hv ▸ h.sorted)
+      · rw [hv, insSorted_append _ _ ha hb]
+        exact insert_shape x hi (by omega)
+      · simp only [List.length_set, hlen]
+
 
 /-- `take`: never faults; returns the stored element with that key and removes only it. -/
 theorem ASet.take_spec {key : α → κ} {P : Nat} {s : ASet α} (h : s.Inv key P) (k : κ) :
     (findK key k s.view = none ∧ s.take key k = .ok (s, none)) ∨
     (∃ y s', findK key k s.view = some y ∧ s.take key k = .ok (s', some y) ∧ s'.Inv key P ∧
         s'.view = eraseK key k s.view ∧ s'.slots = s.slots ∧ s'.len + 1 = s.len) := by
-  sorry
+  have hle := h.len_le
+  have hleP := h.len_leP
+  by_cases h0 : s.len = 0
+  · left
+    refine ⟨?_, ?_⟩
+    · simp only [ASet.view, h0, List.take_zero]; rfl
+    · simp only [ASet.take, h0, if_true]
+  · rcases ASet.index_spec h k with ⟨i, y, hidx, hi, hy, hsame⟩ | ⟨i, hidx, hi, hlo, hhi⟩
+    · right
+      obtain ⟨hv, ha, hb⟩ := h.found_split hi hy
+      have hk := sameK_iff.mp hsame
+      simp only [ASet.slots] at hle
+      have key_step : ∃ s', s.take key k = .ok (s', some y) ∧
+          s'.view = s.vals.take i ++ (s.vals.drop (i + 1)).take (s.len - i - 1) ∧
+          s'.slots = s.slots ∧ s'.len + 1 = s.len := by
+        by_cases hlt : i < s.len - 1
+        · have hcw : ASet.copyWithin s.vals (i + 1) i (s.len - i - 1) =
+              .ok (s.vals.take i ++ (s.vals.drop (i + 1)).take (s.len - i - 1) ++
+                s.vals.drop (i + (s.len - i - 1))) := by
+            unfold ASet.copyWithin
+            rw [if_neg (by omega)]
+          refine ⟨⟨s.len - 1, _⟩, ?_, take_shape hi hle, ?_, ?_⟩
+          · simp only [ASet.take, h0, if_false, hidx, hy, hlt, if_true, hcw]
+          · simp only [ASet.slots, List.length_append, List.length_take, List.length_drop]; omega
+          · show s.len - 1 + 1 = s.len; omega
+        · refine ⟨{ s with len := s.len - 1 }, ?_, ?_, rfl, ?_⟩
+          · simp only [ASet.take, h0, if_false, hidx, hy, hlt]
+          · have h1 : s.len - 1 = i := by omega
+            have h2 : s.len - i - 1 = 0 := by omega
+            simp only [ASet.view, h1, h2, List.take_zero, List.append_nil]
+          · show s.len - 1 + 1 = s.len; omega
+      obtain ⟨s', htake, hview, hslots, hlen⟩ := key_step
+      refine ⟨y, s', h.findK_found hi hy hsame, htake, ⟨?_, ?_, ?_⟩, ?_, hslots, hlen⟩
+      · rw [hslots]; simp only [ASet.slots]; omega
+      · omega
+      · rw [hview]; exact ascK_erase _ _ (hv ▸ h.sorted)
+      · rw [hview, hv, eraseK_append_cons _ _ _ (fun z hz => hk ▸ ha z hz) hk]
+    · left
+      refine ⟨ASet.findK_absent hi hlo hhi, ?_⟩
+      simp only [ASet.take, h0, if_false, hidx]
+
 
 /-- `get_mut` + write: an update that keeps the view ascending is visible afterwards and keeps the invariant. -/
 theorem ASet.update_spec {key : α → κ} {P : Nat} {s : ASet α} (h : s.Inv key P) (k : κ) (y' : α) :
@@ -138,44 +606,131 @@ theorem ASet.update_spec {key : α → κ} {P : Nat} {s : ASet α} (h : s.Inv ke
     ((findK key k s.view).isSome ∧
       ∃ s', s.update key k y' = .ok (s', true) ∧ s'.view = setK key k y' s.view ∧
         s'.slots = s.slots ∧ s'.len = s.len ∧ (AscK (s'.view.map key) → s'.Inv key P)) := by
-  sorry
+  rcases ASet.index_spec h k with ⟨i, y, hidx, hi, hy, hsame⟩ | ⟨i, hidx, hi, hlo, hhi⟩
+  · right
+    obtain ⟨hv, ha, hb⟩ := h.found_split hi hy
+    have hk := sameK_iff.mp hsame
+    refine ⟨by rw [h.findK_found hi hy hsame]; rfl, { s with vals := s.vals.set i y' }, ?_, ?_, ?_, rfl, ?_⟩
+    · simp only [ASet.update, hidx]
+    · rw [hv, setK_append_cons _ _ _ _ (fun z hz => hk ▸ ha z hz) hk]
+      exact update_shape y' hi hy
+    · simp only [ASet.slots, List.length_set]
+    · intro hs
+      exact ⟨by simp only [ASet.slots, List.length_set]; exact h.len_le, h.len_leP, hs⟩
+  · left
+    refine ⟨ASet.findK_absent hi hlo hhi, ?_⟩
+    simp only [ASet.update, hidx]
+
 
 /-- An update that does not change the key keeps the order. -/
 theorem ASet.update_same_key {key : α → κ} {P : Nat} {s : ASet α} (h : s.Inv key P) (k : κ) (y' : α)
     (hk : sameK (key y') k) {s' : ASet α} (hu : s.update key k y' = .ok (s', true)) : s'.Inv key P := by
-  sorry
+  rcases ASet.index_spec h k with ⟨i, y, hidx, hi, hy, hsame⟩ | ⟨i, hidx, hi, hlo, hhi⟩
+  · simp only [ASet.update, hidx, Except.ok.injEq, Prod.mk.injEq, and_true] at hu
+    subst hu
+    obtain ⟨hv, _, _⟩ := h.found_split hi hy
+    have hkk : key y' = key y := (sameK_iff.mp hk).trans (sameK_iff.mp hsame).symm
+    refine ⟨by simp only [ASet.slots, List.length_set]; exact h.len_le, h.len_leP, ?_⟩
+    have hview : ({ s with vals := s.vals.set i y' } : ASet α).view =
+        s.vals.take i ++ y' :: (s.vals.drop (i + 1)).take (s.len - i - 1) := update_shape y' hi hy
+    have hs := h.sorted
+    rw [hv] at hs
+    rw [hview]
+    simp only [List.map_append, List.map_cons, hkk] at hs ⊢
+    exact hs
+  · simp only [ASet.update, hidx, Except.ok.injEq, Prod.mk.injEq] at hu
+    cases hu.2
+
 
 /-- One operation equals one operation of the reference sorted set with bound `min slots P`. -/
 theorem ASet.opStep_refines {key : α → κ} {P : Nat} {s : ASet α} (h : s.Inv key P) (op : ASOp α κ) :
     ∃ s', s.opStep key P op = .ok (s', (BSorted.step key (min s.slots P) s.view op).2) ∧ s'.Inv key P ∧
       s'.view = (BSorted.step key (min s.slots P) s.view op).1 ∧ s'.slots = s.slots := by
-  sorry
+  have hle := h.len_le
+  have hvl : s.view.length = s.len := by
+    simp only [ASet.slots] at hle
+    simp only [ASet.view, List.length_take]; omega
+  cases op with
+  | insert x =>
+    rcases ASet.insert_spec h x with ⟨hc, hins⟩ | ⟨hnone, hlt, s', hins, hinv, hview, hslots, _⟩
+    · have hcond : (findK key (key x) s.view).isSome = true ∨ s.view.length ≥ min s.slots P := by
+        rw [hvl]; exact hc
+      refine ⟨s, ?_, h, ?_, rfl⟩
+      · simp only [ASet.opStep, hins, Except.map, BSorted.step, if_pos hcond]
+      · simp only [BSorted.step, if_pos hcond]
+    · have hcond : ¬ ((findK key (key x) s.view).isSome = true ∨ s.view.length ≥ min s.slots P) := by
+        rw [hvl, hnone]; simp only [Option.isSome_none, Bool.false_eq_true, false_or]; omega
+      refine ⟨s', ?_, hinv, ?_, hslots⟩
+      · simp only [ASet.opStep, hins, Except.map, BSorted.step, if_neg hcond]
+      · simp only [BSorted.step, if_neg hcond, hview]
+  | take k =>
+    rcases ASet.take_spec h k with ⟨hnone, htake⟩ | ⟨y, s', hsome, htake, hinv, hview, hslots, _⟩
+    · refine ⟨s, ?_, h, ?_, rfl⟩
+      · simp only [ASet.opStep, htake, Except.map, BSorted.step, hnone]
+      · simp only [BSorted.step, eraseK_of_findK_none _ hnone]
+    · refine ⟨s', ?_, hinv, ?_, hslots⟩
+      · simp only [ASet.opStep, htake, Except.map, BSorted.step, hsome]
+      · simp only [BSorted.step, hview]
+  | get k =>
+    refine ⟨s, ?_, h, rfl, rfl⟩
+    simp only [ASet.opStep, ASet.get_spec h k, Except.map, BSorted.step]
+  | contains k =>
+    refine ⟨s, ?_, h, rfl, rfl⟩
+    simp only [ASet.opStep, ASet.contains, ASet.get_spec h k, Except.map, BSorted.step]
+  | len =>
+    refine ⟨s, ?_, h, rfl, rfl⟩
+    simp only [ASet.opStep, BSorted.step, hvl]
+
 
 theorem ASet.opRun_refines {key : α → κ} {P : Nat} {s : ASet α} (h : s.Inv key P) (ops : List (ASOp α κ)) :
     ∃ s', s.opRun key P ops = .ok (s', (BSorted.run key (min s.slots P) s.view ops).2) ∧ s'.Inv key P ∧
       s'.view = (BSorted.run key (min s.slots P) s.view ops).1 := by
-  sorry
+  induction ops generalizing s with
+  | nil => exact ⟨s, rfl, h, rfl⟩
+  | cons op ops ih =>
+    obtain ⟨s1, hstep, hinv1, hview1, hslots1⟩ := ASet.opStep_refines h op
+    obtain ⟨s2, hrun, hinv2, hview2⟩ := ih hinv1
+    rw [hslots1, hview1] at hrun hview2
+    refine ⟨s2, ?_, hinv2, ?_⟩
+    · simp only [ASet.opRun, hstep, hrun, BSorted.run]
+    · simp only [BSorted.run, hview2]
+
 
 /-- A zero-filled buffer of any size is the empty set. -/
 theorem ASet.inv_zero (key : α → κ) (P : Nat) (d : α) (n : Nat) :
     ({ len := 0, vals := List.replicate n d } : ASet α).Inv key P := by
-  sorry
+  refine ⟨Nat.zero_le _, Nat.zero_le _, ?_⟩
+  simp only [ASet.view, List.take_zero, List.map_nil]
+  trivial
+
 
 /-- Growth: the members are kept and exactly `n` slots are gained. -/
 theorem ASet.extend_spec {key : α → κ} {P : Nat} {s : ASet α} (h : s.Inv key P) (d : α) (n : Nat) :
     (s.extend d n).Inv key P ∧ (s.extend d n).view = s.view ∧ (s.extend d n).slots = s.slots + n ∧
     (s.extend d n).len = s.len := by
-  sorry
+  have hle := h.len_le
+  simp only [ASet.slots] at hle
+  have hview : (s.extend d n).view = s.view := by
+    simp only [ASet.extend, ASet.view]
+    exact List.take_append_of_le_length hle
+  have hslots : (s.extend d n).slots = s.slots + n := by
+    simp only [ASet.extend, ASet.slots, List.length_append, List.length_replicate]
+  refine ⟨⟨?_, h.len_leP, ?_⟩, hview, hslots, rfl⟩
+  · rw [hslots]; show s.len ≤ s.slots + n; simp only [ASet.slots]; omega
+  · rw [hview]; exact h.sorted
+
 
 /-- Footprint of the raw copies: under the guards the code establishes, both
     ranges of `ptr::copy` stay inside the value slots. -/
 theorem ASet.copy_in_bounds_insert (index len slots : Nat) (h1 : len < slots) (h2 : index ≤ len) :
     index + (len - index) ≤ slots ∧ (index + 1) + (len - index) ≤ slots := by
-  sorry
+  omega
+
 
 theorem ASet.copy_in_bounds_take (index len slots : Nat) (h1 : len ≤ slots) (h2 : index < len - 1) :
     (index + 1) + (len - index - 1) ≤ slots ∧ index + (len - index - 1) ≤ slots := by
-  sorry
+  omega
+
 
 end Lemmas
 end Stevia
